@@ -78,7 +78,7 @@ def load_corpus(pid, tie):
     return out
 
 
-def finding_matches(fnd, pid, tie, case, impl):
+def finding_matches(fnd, pid, tie, case, impl, why=""):
     if fnd.get("status", "open") != "open" or fnd.get("property") != pid:
         return False
     if "tie" in fnd and fnd["tie"] != tie:
@@ -91,6 +91,11 @@ def finding_matches(fnd, pid, tie, case, impl):
         import re
         if not re.search(key, case):
             return False
+    key = fnd.get("why_prefix")     # the predicate's own classification of the failure
+    if key is not None and not why.startswith(key):
+        return False
+    if not any(k in fnd for k in ("case_prefix", "case_regex", "why_prefix")):
+        return False
     return True
 
 
@@ -119,7 +124,7 @@ def try_shrink(tie, cpp, mdl, case, still_bad):
 def run_check(P, tier, seed, replay=None, only_tie=None):
     """Holds a shared lock on the state of /repo for the whole run, so that a mutation test
     (tools/mutate, exclusive lock) never overlaps a check that expects the unchanged tree."""
-    if os.environ.get("VERIF_HAVE_REPO_LOCK") == "1":
+    if os.environ.get("VERIF_HAVE_REPO_LOCK") == "1" or core.SANDBOX:
         return run_check_locked(P, tier, seed, replay, only_tie)
     import fcntl
     os.makedirs(core.BUILD, exist_ok=True)
@@ -219,6 +224,8 @@ def run_check_locked(P, tier, seed, replay=None, only_tie=None):
             evaluations += len(cases)
             ndis = 0
             nfail = 0
+            nknown = 0
+            known = core.known_findings()
             first_reports = 0
             for i, c in enumerate(cases):
                 k = tie.classify(c)
@@ -234,6 +241,15 @@ def run_check_locked(P, tier, seed, replay=None, only_tie=None):
                     why = holds[i]
                 if not dis and not fail:
                     continue
+                if fail and not dis:
+                    # a failure that is a listed known finding (matched on the unshrunk case) is reported as such and nothing else
+                    kf0 = [f for f in known if finding_matches(f, pid, tie.name, c, impl[i], why)]
+                    if kf0:
+                        nknown += 1
+                        kl = "KNOWN-FINDING: property=%s %s" % (pid, kf0[0].get("what", c))
+                        if kl not in known_lines:
+                            known_lines.append(kl)
+                        continue
                 ndis += dis
                 nfail += fail
                 if first_reports >= 5:
@@ -259,9 +275,12 @@ def run_check_locked(P, tier, seed, replay=None, only_tie=None):
                            driver_cmd="%s %s" % (cpp, tie.mode or ""), model_cmd="%s model %s" % (mdl, tie.mode or ""),
                            replay_cmd="./check %s --replay <this file>" % pid)
                 if fail:
-                    kf = [f for f in core.known_findings() if finding_matches(f, pid, tie.name, c2, io)]
+                    kf = [f for f in core.known_findings() if finding_matches(f, pid, tie.name, c2, io, why)]
                     if kf:
-                        known_lines.append("KNOWN-FINDING: property=%s %s" % (pid, kf[0].get("what", c2)))
+                        kl = "KNOWN-FINDING: property=%s %s" % (pid, kf[0].get("what", c2))
+                        if kl not in known_lines:
+                            known_lines.append(kl)
+                        first_reports -= 1
                         continue
                     failing_input_found = True
                     violation(obj, True)
@@ -272,7 +291,7 @@ def run_check_locked(P, tier, seed, replay=None, only_tie=None):
             # samples
             for j in sorted(set([0, len(cases) // 2, len(cases) - 1])):
                 samples.append(dict(tie=tie.name, case=cases[j][:400], impl=impl[j][:400], model=model[j][:400]))
-            coverage.setdefault("ties", {})[tie.name] = dict(cases=len(cases), disagreements=ndis, predicate_failures=nfail)
+            coverage.setdefault("ties", {})[tie.name] = dict(cases=len(cases), disagreements=ndis, predicate_failures=nfail, known_finding_cases=nknown)
 
         # 6. decide
         if not failing_input_found:
